@@ -1,6 +1,8 @@
 package harness
 
 import (
+	"fmt"
+	"sync/atomic"
 	"math/rand"
 	"testing"
 	"testing/synctest"
@@ -347,4 +349,103 @@ func TestServerStories(t *testing.T) {
 	for i := 0; i < scale(25, 600); i++ {
 		runOverlapHistory(t, c, serverTags(), seed()*9000011+int64(i))
 	}
+}
+
+// TestC05Faults: a reply that cannot be sent (the send socket cannot be opened) changes nothing for anybody: the binding of the
+// client whose OFFER / ACK was lost runs on as listed before (C05: "no message from it or from anyone else shortens that"),
+// and nobody else is offered or acknowledged that address (C01).  These rounds are judged directly: the acceptor knows no
+// send faults.
+func TestC05Faults(t *testing.T) {
+	vl := &violationLog{}
+	for i := 0; i < scale(24, 400); i++ {
+		i := i
+		synctest.Test(t, func(t *testing.T) {
+			r := rand.New(rand.NewSource(seed()*5000011 + int64(i)))
+			cfg := storyCfg(r, 3)
+			g := &srvGen{r: r, cfg: cfg}
+			for a := cfg.rangeB; a <= cfg.rangeE; a++ {
+				g.pool = append(g.pool, a)
+			}
+			a, b := mkClient(1, r), mkClient(2, r)
+			g.clients = []*simClient{a, b}
+			s, err := startServer(t, cfg)
+			if err != nil {
+				return
+			}
+			defer s.stop()
+			atomic.AddInt64(&vl.n, 1)
+			bflag := uint16(r.Intn(2)) << 15
+			s.do(g, a, a.discover(0, bflag))
+			if a.offered == 0 {
+				return
+			}
+			s.do(g, a, a.selecting(a.offered, cfg.selfIP, bflag))
+			if a.leased == 0 {
+				return
+			}
+			x := a.leased
+			until := func() (int64, bool) {
+				for _, e := range s.snapshot() {
+					if e.ip == x {
+						return e.until, true
+					}
+				}
+				return 0, false
+			}
+			u1, ok := until()
+			if !ok {
+				vl.add("c05-fault", "scenario %d: acknowledged address %s not in the table", i, ipStr(x))
+				return
+			}
+			s.advance(time.Duration(1+r.Intn(int(cfg.lease/time.Second)/2)) * time.Second)
+			// the next reply cannot be sent
+			s.seg.FailOpen = func(seq int, what string) error {
+				if what == "ucsend" || what == "ipsend" {
+					return fmt.Errorf("injected")
+				}
+				return nil
+			}
+			var what string
+			switch r.Intn(3) {
+			case 0:
+				what = "DISCOVER"
+				s.round(a.discover([]uint32{0, x}[r.Intn(2)], bflag), nil)
+			case 1:
+				what = "renewing REQUEST"
+				s.round(a.renewing(x, cfg.selfIP, bflag), nil)
+			case 2:
+				what = "selecting REQUEST"
+				s.round(a.selecting(x, cfg.selfIP, bflag), nil)
+			}
+			s.seg.FailOpen = nil
+			if u2, ok := until(); !ok || u2 < u1 {
+				vl.add("c05-fault", "scenario %d: after a %s whose reply could not be sent the binding of %s runs until %d ns (listed: %v); it ran until %d ns before", i, what, ipStr(x), u2, ok, u1)
+			}
+			// somebody else goes for the address while the lease is running
+			ob := s.do(g, b, b.discover(x, 0))
+			if b.offered == x {
+				vl.add("c05-fault", "scenario %d: %s offered to another client while its lease runs (after a %s of the holder whose reply could not be sent)", i, ipStr(x), what)
+			}
+			_ = ob
+			or := s.round(b.selecting(x, cfg.selfIP, 0), nil)
+			for _, f := range or.outs {
+				if rp := parseReply(f.pkt); rp.ok && rp.typ == 5 {
+					vl.add("c05-fault", "scenario %d: %s acknowledged to another client while its lease runs", i, ipStr(x))
+				}
+			}
+			// the holder renews
+			o := s.round(a.renewing(x, cfg.selfIP, 0), nil)
+			acked := false
+			for _, f := range o.outs {
+				if rp := parseReply(f.pkt); rp.ok && rp.typ == 5 && rp.msg.yiaddr == x {
+					acked = true
+				}
+			}
+			if !acked {
+				vl.add("c05-fault", "scenario %d: the holder's renewal of %s is not acknowledged after a %s whose reply could not be sent", i, ipStr(x), what)
+			}
+		})
+	}
+	vl.write(t, "c05faults", map[string]interface{}{"distinct_nontrivial": int(atomic.LoadInt64(&vl.n)), "histogram": map[string]int{"send-fault:scenario": int(atomic.LoadInt64(&vl.n))},
+		"samples": []string{"bound client; its next DISCOVER / renewing / selecting REQUEST is handled while no send socket can be opened; then the table listing, a competitor's DISCOVER and REQUEST for the address, and the holder's renewal"}})
 }
